@@ -164,13 +164,14 @@ def selftest(repo):
     src = open(os.path.join(repo, "boltons", "iterutils.py")).read()
     base = translate(repo)
     import tempfile
-    changed = 0
+    changed = skipped = 0
     perturbations = [("if i + chunk_size >= input_stop:", "if i + chunk_size != input_stop:"),
                      ("min(i + chunk_size, input_stop)", "min(i + chunk_size, input_offset)"),
                      ("input_offset % (chunk_size - overlap_size)", "input_offset % chunk_size"),
                      ("if value < 0 or (strictly_positive and value == 0):", "if value < 0:")]
     for old, new in perturbations:
         if src.count(old) != 1:
+            skipped += 1        # this spot of the source has been rewritten: perturbation not applicable
             continue
         with tempfile.TemporaryDirectory() as d:
             os.makedirs(os.path.join(d, "boltons"))
@@ -182,7 +183,7 @@ def selftest(repo):
                 continue
             if out.split("Definition", 1)[1] != base.split("Definition", 1)[1]:
                 changed += 1
-    return changed, len(perturbations)
+    return changed, len(perturbations) - skipped
 
 
 if __name__ == "__main__":
